@@ -229,4 +229,32 @@ theorem limb_fit {j k n S : Nat} (h : j + k ≤ S) : j * n + k * n ≤ n * S := 
   have := col_fit (c := j) (k := k) (C := S) (R := n) h
   rw [Nat.mul_comm n S]; exact this
 
+theorem stride4 {n c : Nat} (h : n % 4 = 0) : 4 * (n * c / 4) = n * c := by
+  have e : n * c = 4 * (n / 4 * c) := by
+    have : n = 4 * (n / 4) := by omega
+    calc n * c = 4 * (n / 4) * c := by rw [← this]
+      _ = 4 * (n / 4 * c) := Nat.mul_assoc _ _ _
+  rw [e, Nat.mul_div_cancel_left _ (by decide : 0 < 4)]
+
+/-- limb `j`, column `c` of a limb-major container with `C` columns and `S` limbs: `n·(j·C + c) + n ≤ n·C·S` -/
+theorem at_fit {n j C c S : Nat} (hj : j < S) (hc : c < C) : n * (j * C + c) + n ≤ n * C * S := by
+  have k : j * C + (c + 1) ≤ S * C := blk_fit hj (by omega)
+  calc n * (j * C + c) + n = n * (j * C + (c + 1)) := by rw [Nat.mul_add n _ (c + 1), Nat.mul_add n _ c, Nat.mul_add n c 1]; omega
+    _ ≤ n * (S * C) := Nat.mul_le_mul_left _ k
+    _ = n * C * S := by rw [Nat.mul_comm S C, Nat.mul_assoc]
+
+/-- block `blk` of column `col` of a prepared convolution operand (`S` limbs, 8 doubles per limb and block):
+`col·n·S + blk·(S·8) + x ≤ n·C·S` for `x ≤ S·8` -/
+theorem cnv_blk_fit {m col C S blk x : Nat} (hm : m % 4 = 0) (hcol : col < C) (hb : blk < m / 4) (hx : x ≤ S * 8) :
+    col * (2 * m) * S + blk * (S * 8) + x ≤ 2 * m * C * S := by
+  have k1 := blk_fit (blk := blk) (q := m / 4) (Q := S * 8) (x := x) hb hx
+  have e1 : m / 4 * (S * 8) = 2 * m * S := by
+    calc m / 4 * (S * 8) = (m / 4 * 8) * S := by rw [Nat.mul_comm S 8, Nat.mul_assoc]
+      _ = 2 * m * S := by rw [show m / 4 * 8 = 2 * m by omega]
+  have k2 := blk_fit (blk := col) (q := C) (Q := 2 * m * S) (x := 2 * m * S) hcol (Nat.le_refl _)
+  have e2 : col * (2 * m) * S = col * (2 * m * S) := Nat.mul_assoc _ _ _
+  have e3 : C * (2 * m * S) = 2 * m * C * S := by
+    rw [← Nat.mul_assoc, Nat.mul_comm C (2 * m)]
+  omega
+
 end Kern
